@@ -14,7 +14,8 @@ CONSTANTS Repos,       \* e.g. {1, 2}
           MaxTick,     \* how often the clock may advance by 25 h
           MaxCrash,    \* *.tmp files a crashed indexer may leave (0 or 1)
           Starts,      \* warm starts to begin from (indices into Warm)
-          Strict,      \* TRUE: no allowance for the named deviations (expected to fail)
+          Strict,      \* TRUE: no allowance for the named deviations (expected to fail unless Fix)
+          Fix,         \* TRUE: the code with the proposed patch (ZoektSeqOps, fx)
           Emit         \* "none" | "bfs": one script per transition | "sim": one per finished walk
 
 VARIABLES st, hist, viol
@@ -49,7 +50,7 @@ Warm == << <<>>,
 RECURSIVE Run(_, _)
 \* states after each operation of ops, starting in s (first choice where an operation has several results)
 Run(s, ops) == IF ops = <<>> THEN <<>>
-               ELSE LET s2 == CHOOSE x \in Apply(s, Head(ops)) : TRUE IN <<s2>> \o Run(s2, Tail(ops))
+               ELSE LET s2 == CHOOSE x \in Apply(s, Head(ops), Fix) : TRUE IN <<s2>> \o Run(s2, Tail(ops))
 
 Out(s) == [d |-> SetToSeq(s.d), tmp |-> s.tmp, a |-> SetToSortSeq(s.A, LAMBDA x, y : x < y),
            clk |-> s.clk, last |-> s.last]
@@ -73,10 +74,10 @@ Enabled(s) ==
 
 Step ==
   /\ hist.n < MaxDepth
-  /\ \E o \in Enabled(st) : \E s2 \in Apply(st, o) :
+  /\ \E o \in Enabled(st) : \E s2 \in Apply(st, o, Fix) :
        /\ st' = s2
        /\ hist' = [hist EXCEPT !.ops = Append(@, o), !.preds = Append(@, Out(s2)), !.n = @ + 1]
-       /\ viol' = {v \in Viol(st, o, s2, ViewOf(st.d), ViewOf(s2.d), Repos) : Strict \/ ~Known(v)}
+       /\ viol' = {v \in Viol(st, o, s2, ViewOf(st.d), ViewOf(s2.d), Repos, Fix) : Strict \/ ~Known(v, Fix)}
        /\ (Emit = "bfs" => PrintT(<<"SCRIPT", ToJson([ops |-> hist'.ops, preds |-> <<Out(s2)>>, n |-> hist'.n])>>))
 
 \* end of a walk: print the whole history once
